@@ -940,3 +940,56 @@ func checkC01AliasesAfterShrink(c *Ctx) {
 		}
 	})
 }
+
+// Many distinct things in one run: whatever table, cache or ring the implementation keeps per run must
+// hold (or evict) hundreds of distinct regex sources, names, keys, functions, rules, literals, cases,
+// arguments, selectors, values.  Claim: the run succeeds.
+func checkC01ManyDistinct(c *Ctx) {
+	pool := c.Pool()
+	n := 300
+	var jobs []Job
+	add := func(tag, prog string, sels []string, input string) {
+		jobs = append(jobs, Job{Kind: "run", Prog: []byte(prog), Sels: sels, Files: []FileIn{{Name: "in.json", Data: []byte(input)}}, Budget: 5_000_000, Tag: tag})
+	}
+	rep := func(f func(i int) string, sep string) string {
+		parts := make([]string, n)
+		for i := range parts {
+			parts[i] = f(i)
+		}
+		return strings.Join(parts, sep)
+	}
+	nums := "[" + rep(func(i int) string { return fmt.Sprint(i) }, ",") + "]"
+	add("regex sources built in a loop", "BEGIN {\n  for (i = 0; i < 300; i++) {\n    if (\"x\" + i ~ (\"^x\" + i + \"$\")) {\n      c++\n    }\n    if (\"y\" !~ (\"z\" + i)) {\n      d++\n    }\n  }\n  print c, d\n}\n", nil, "[]")
+	add("regex sources from the input", "$.name ~ $.pat {\n  c++\n}\nEND {\n  print c\n}\n", nil, "["+rep(func(i int) string { return fmt.Sprintf(`{"name":"n%d","pat":"^n%d$"}`, i, i) }, ",")+"]")
+	add("regex literals", "BEGIN {\n"+rep(func(i int) string { return fmt.Sprintf("  if (\"a%d\" ~ /a%d/) { c++ }", i, i) }, "\n")+"\n  print c\n}\n", nil, "[]")
+	add("variables", "BEGIN {\n"+rep(func(i int) string { return fmt.Sprintf("  v%d = %d", i, i) }, "\n")+"\n  print v0 + v299\n}\n", nil, "[]")
+	add("object keys", "BEGIN {\n  o = {}\n  for (i = 0; i < 300; i++) {\n    o[\"k\" + i] = i\n    o[i] = i\n  }\n  print o.length()\n  for (k, v in o) {\n    s = s + v\n  }\n  print s\n}\n", nil, "[]")
+	add("functions", rep(func(i int) string { return fmt.Sprintf("function f%d(a) {\n  return a + %d\n}", i, i) }, "\n")+"\nBEGIN {\n  print "+rep(func(i int) string { return fmt.Sprintf("f%d(1)", i) }, " + ")+"\n}\n", nil, "[]")
+	add("rules", rep(func(i int) string { return fmt.Sprintf("$ == %d {\n  c++\n}", i) }, "\n")+"\nEND {\n  print c\n}\n", nil, nums)
+	add("begin and end rules", rep(func(i int) string { return fmt.Sprintf("BEGIN {\n  b++\n}\nEND {\n  e++\n}") }, "\n")+"\nEND {\n  print b, e\n}\n", nil, "[]")
+	add("string literals", "BEGIN {\n  s = "+rep(func(i int) string { return fmt.Sprintf("\"s%d\"", i) }, " + ")+"\n  print s.length()\n}\n", nil, "[]")
+	add("match cases", "{\n  r = match ($) { "+rep(func(i int) string { return fmt.Sprintf("%d => \"c%d\"", i, i) }, ", ")+" }\n  if (r == \"c\" + $) {\n    c++\n  }\n}\nEND {\n  print c\n}\n", nil, nums)
+	add("match alternatives", "{\n  r = match ($) { "+rep(func(i int) string { return fmt.Sprint(i) }, ", ")+" => 1, _ => 0 }\n  c = c + r\n}\nEND {\n  print c\n}\n", nil, nums)
+	add("array literal elements and arguments", "function f(a, b) {\n  return a + b\n}\nBEGIN {\n  x = ["+rep(func(i int) string { return fmt.Sprint(i) }, ", ")+"]\n  print x.length(), f("+rep(func(i int) string { return fmt.Sprint(i) }, ", ")+")\n}\n", nil, "[]")
+	add("parameters", "function f("+rep(func(i int) string { return fmt.Sprintf("p%d", i) }, ", ")+") {\n  return p0 + p299\n}\nBEGIN {\n  print f("+rep(func(i int) string { return "1" }, ", ")+")\n}\n", nil, "[]")
+	add("object literal members and pattern elements", "BEGIN {\n  o = {"+rep(func(i int) string { return fmt.Sprintf("k%d: %d", i, i) }, ", ")+"}\n  print o.length()\n  r = match (["+rep(func(i int) string { return "1" }, ", ")+"]) { ["+rep(func(i int) string { return fmt.Sprintf("q%d", i) }, ", ")+"] => q299, _ => 0 }\n  print r\n}\n", nil, "[]")
+	sels := make([]string, 100)
+	for i := range sels {
+		sels[i] = fmt.Sprintf("$[%d]", i)
+	}
+	add("selectors", "{\n  c++\n}\nEND {\n  print c\n}\n", sels, nums)
+	add("values in one input", "{\n  c++\n}\nEND {\n  print c\n}\n", nil, rep(func(i int) string { return fmt.Sprintf(`{"v":%d}`, i) }, "\n"))
+	add("printf directives", "BEGIN {\n  printf(\""+rep(func(i int) string { return "%s" }, "")+"\\n\", "+rep(func(i int) string { return "\"a\"" }, ", ")+")\n}\n", nil, "[]")
+	add("methods called", "BEGIN {\n  a = []\n  for (i = 0; i < 300; i++) {\n    a.push(\"s\" + i)\n    t = (\"S\" + i).lower().upper().length()\n    u = a.contains(\"s\" + i) + a.length() + a.sort().length()\n  }\n  print a.length()\n}\n", nil, "[]")
+	pool.Map(jobs, func(i int, r Result) {
+		switch r.Class {
+		case "ok":
+			c.Case("many:"+jobs[i].Tag, true)
+		case "budget", "timeout":
+			c.Count("inconclusive", 1)
+		default:
+			c.Violation("many-distinct-"+r.Class, map[string]any{"what": jobs[i].Tag, "program_head": firstN(string(jobs[i].Prog), 500), "got_class": r.Class, "got_err": r.ErrMsg, "got_stdout": firstN(string(r.Stdout), 200), "detail": firstN(r.Detail, 1200),
+				"why": "a run that uses hundreds of distinct " + jobs[i].Tag + " must succeed"})
+		}
+	})
+}
